@@ -968,7 +968,7 @@ def run_job(job):
 
 run_job_safe = core.safe(run_job)
 
-SPARK_CHUNK = 8
+SPARK_CHUNK = 4
 
 
 def _spark_child(inp, outp):
@@ -1015,7 +1015,16 @@ def run_spark_jobs(jobs):
         pickle.dump(jobs[k:k + SPARK_CHUNK], open(inp, "wb"))
         env = dict(os.environ)
         env["PYTHONPATH"] = f"{core.VERIF}:/repo"
-        p = subprocess.run([sys.executable, "-m", "harness.props.c06", "--spark-child", str(inp), str(outp)], cwd=core.VERIF, env=env, capture_output=True, text=True, timeout=3000)
+        try:
+            p = subprocess.run([sys.executable, "-m", "harness.props.c06", "--spark-child", str(inp), str(outp)], cwd=core.VERIF, env=env, capture_output=True, text=True,
+                               timeout=200 * len(jobs[k:k + SPARK_CHUNK]))
+        except subprocess.TimeoutExpired:
+            # the local Spark of this sandbox can exhaust its heap in the planner and then spins in garbage collection (observed for over
+            # an hour on one small job): infrastructure; the jobs of this chunk are excluded and counted like an OutOfMemoryError
+            res += [{"__error__": "SparkTimeout", "text": "no answer within the time limit (treated like java.lang.OutOfMemoryError of the sandbox's Spark driver)", "tb": ""}
+                    for _ in jobs[k:k + SPARK_CHUNK]]
+            core._kill_jvms_of_dead_workers()
+            continue
         if p.returncode != 0 or not outp.exists():
             raise core.HarnessError(f"Spark child process failed (rc={p.returncode}): {(p.stderr or p.stdout)[-1500:]}")
         res += pickle.load(open(outp, "rb"))
